@@ -1,6 +1,6 @@
 //go:build verif
 
-package ff
+package ff_test
 
 // C12 for the BLS12-381 tower Fp2/Fp4/Fp6/Fp12/Fp12Cubic/Cyclo6/URoot: every
 // operation against the flat model Fp[w]/(w^12 - 2 w^6 + 2) of
@@ -10,41 +10,41 @@ package ff
 import (
 	"fmt"
 	"math/big"
-	"os"
 	"testing"
 
+	"github.com/cloudflare/circl/ecc/bls12381/ff"
 	"github.com/cloudflare/circl/internal/verifmc"
 	bf "github.com/cloudflare/circl/internal/verifref/bigfield"
 )
 
 var c12T = bf.NewTower(bf.PBLS)
 
-func c12fp2c(z *Fp2) []*Fp { return []*Fp{&z[0], &z[1]} }
+func c12fp2c(z *ff.Fp2) []*ff.Fp { return []*ff.Fp{&z[0], &z[1]} }
 
-func c12Coords(x bf.Elem) []*Fp {
-	var out []*Fp
+func c12Coords(x bf.Elem) []*ff.Fp {
+	var out []*ff.Fp
 	switch z := x.(type) {
-	case *Fp2:
+	case *ff.Fp2:
 		out = c12fp2c(z)
-	case *Fp4:
+	case *ff.Fp4:
 		out = append(c12fp2c(&z[0]), c12fp2c(&z[1])...)
-	case *Fp6:
+	case *ff.Fp6:
 		for j := range z {
 			out = append(out, c12fp2c(&z[j])...)
 		}
-	case *Fp12:
+	case *ff.Fp12:
 		for i := range z {
 			for j := range z[i] {
 				out = append(out, c12fp2c(&z[i][j])...)
 			}
 		}
-	case *Fp12Cubic:
+	case *ff.Fp12Cubic:
 		for m := range z {
 			for h := range z[m] {
 				out = append(out, c12fp2c(&z[m][h])...)
 			}
 		}
-	case *LineValue:
+	case *ff.LineValue:
 		for s := range z {
 			out = append(out, c12fp2c(&z[s])...)
 		}
@@ -54,7 +54,7 @@ func c12Coords(x bf.Elem) []*Fp {
 	return out
 }
 
-func c12FpInt(x *Fp) *big.Int {
+func c12FpInt(x *ff.Fp) *big.Int {
 	b, err := x.MarshalBinary()
 	if err != nil {
 		panic(err)
@@ -75,7 +75,7 @@ func c12Load(z bf.Elem, packed *big.Int) bool {
 	cs := c12Coords(z)
 	v := bf.Unpack(packed, bf.TowerWidth, len(cs))
 	for i, c := range cs {
-		if v[i].Cmp(bf.PBLS) >= 0 || c.UnmarshalBinary(v[i].FillBytes(make([]byte, FpSize))) != nil {
+		if v[i].Cmp(bf.PBLS) >= 0 || c.UnmarshalBinary(v[i].FillBytes(make([]byte, ff.FpSize))) != nil {
 			return false
 		}
 	}
@@ -169,12 +169,6 @@ func c12SlotElems(nslots int, vals [][2]*big.Int, maxNZ int) []bf.Operand {
 	}
 	rec(0, 0, "")
 	return out
-}
-
-func c12SkipUnlessDefault(t *testing.T) {
-	if c := os.Getenv("VERIF_CONFIG"); c != "" && c != "default" {
-		t.Skip("pure Go code: identical in every configuration; run under default only")
-	}
 }
 
 // TestVerifC12_refcheck binds the flat tower model and the constants before they are trusted.
@@ -284,7 +278,7 @@ func TestVerifC12_blstower(t *testing.T) {
 	r.NotExhaustive("operands are the declared alphabet, not all tower elements")
 
 	// ---------- Fp2 ----------
-	f2 := c12TowerField(bf.LayFp2, func() bf.Elem { return new(Fp2) })
+	f2 := c12TowerField(bf.LayFp2, func() bf.Elem { return new(ff.Fp2) })
 	var o2 []bf.Operand
 	for i, a := range fpCore {
 		for j, b := range fpCore {
@@ -295,7 +289,7 @@ func TestVerifC12_blstower(t *testing.T) {
 		o2 = append(o2, bf.Operand{V: bf.Pack(bf.TowerWidth, ps(10+2*k), ps(11+2*k)), Name: "pseudo"})
 	}
 	s2 := f2.Prepare("a", o2)
-	e2 := func(x bf.Elem) *Fp2 { return x.(*Fp2) }
+	e2 := func(x bf.Elem) *ff.Fp2 { return x.(*ff.Fp2) }
 	L2 := bf.LayFp2
 	for _, op := range []bf.BinOp{
 		{Name: "Add", Do: func(z, x, y bf.Elem) { e2(z).Add(e2(x), e2(y)) }, Ref: c12R2(L2, T.Add), Canon: true},
@@ -316,11 +310,11 @@ func TestVerifC12_blstower(t *testing.T) {
 		{Name: "SetOne", Do: func(z, x bf.Elem) { e2(z).SetOne() }, Ref: c12R1(L2, c12tot(func(a bf.Poly12) bf.Poly12 { return T.One() })), Canon: true},
 		{Name: "Marshal-Unmarshal", Do: func(z, x bf.Elem) {
 			b, err := e2(x).MarshalBinary()
-			if err != nil || len(b) != Fp2Size {
+			if err != nil || len(b) != ff.Fp2Size {
 				panic("MarshalBinary")
 			}
 			// documented order: z[1] first
-			if new(big.Int).SetBytes(b[:FpSize]).Cmp(c12FpInt(&e2(x)[1])) != 0 || new(big.Int).SetBytes(b[FpSize:]).Cmp(c12FpInt(&e2(x)[0])) != 0 {
+			if new(big.Int).SetBytes(b[:ff.FpSize]).Cmp(c12FpInt(&e2(x)[1])) != 0 || new(big.Int).SetBytes(b[ff.FpSize:]).Cmp(c12FpInt(&e2(x)[0])) != 0 {
 				panic("MarshalBinary coordinate order")
 			}
 			if err := e2(z).UnmarshalBinary(b); err != nil {
@@ -372,7 +366,7 @@ func TestVerifC12_blstower(t *testing.T) {
 	var nq, nn int
 	for i := 0; i < s2.Len(); i++ {
 		for _, alias := range []string{"distinct", "z=x"} {
-			x, z := new(Fp2), new(Fp2)
+			x, z := new(ff.Fp2), new(ff.Fp2)
 			*x = *e2(s2.E[i])
 			*z = *e2(s2.E[(i+1)%s2.Len()])
 			before := c12Raw(z)
@@ -415,9 +409,9 @@ func TestVerifC12_blstower(t *testing.T) {
 	// ---------- Fp4 ----------
 	fp2vals := [][2]*big.Int{{big.NewInt(1), new(big.Int)}, {pm1, pm1}, {ps(40), ps(41)}, {new(big.Int), big.NewInt(1)}, {big.NewInt(2), half}, {pm1, new(big.Int)}}
 	core3 := fp2vals[:3]
-	f4 := c12TowerField(bf.LayFp4, func() bf.Elem { return new(Fp4) })
+	f4 := c12TowerField(bf.LayFp4, func() bf.Elem { return new(ff.Fp4) })
 	s4 := f4.Prepare("b", c12SlotElems(2, fp2vals, 2))
-	e4 := func(x bf.Elem) *Fp4 { return x.(*Fp4) }
+	e4 := func(x bf.Elem) *ff.Fp4 { return x.(*ff.Fp4) }
 	L4 := bf.LayFp4
 	for _, op := range []bf.BinOp{
 		{Name: "Add", Do: func(z, x, y bf.Elem) { e4(z).Add(e4(x), e4(y)) }, Ref: c12R2(L4, T.Add), Canon: true},
@@ -433,37 +427,15 @@ func TestVerifC12_blstower(t *testing.T) {
 		{Name: "Sqr", Do: func(z, x bf.Elem) { e4(z).Sqr(e4(x)) }, Ref: c12R1(L4, c12tot(T.Sqr)), Canon: true},
 		{Name: "Inv", Do: func(z, x bf.Elem) { e4(z).Inv(e4(x)) }, Ref: c12R1(L4, inv), Canon: true},
 		{Name: "Cjg", Do: func(z, x bf.Elem) { *e4(z) = *e4(x); e4(z).Cjg() }, Ref: c12R1(L4, c12tot(frob2)), Canon: true},
-		{Name: "mulT", Do: func(z, x bf.Elem) { e4(z).mulT(e4(x)) }, Ref: c12R1(L4, c12tot(func(a bf.Poly12) bf.Poly12 { return T.Mul(a, T.W(3)) })), Canon: true},
 		{Name: "SetOne", Do: func(z, x bf.Elem) { e4(z).SetOne() }, Ref: c12R1(L4, c12tot(func(a bf.Poly12) bf.Poly12 { return T.One() })), Canon: true},
 	} {
 		f4.CheckUn(r, op, s4, true)
 	}
 	_ = p2
 	f4.CheckPred(r, bf.Pred{Name: "IsZero", Do: func(x bf.Elem) bool { return e4(x).IsZero() == 1 }, Ref: func(x, _ *big.Int) bool { return x.Sign() == 0 }}, s4)
-	// mulSubfield(x, y in Fp2)
-	nms := 0
-	for i := 0; i < s4.Len(); i++ {
-		for j := 0; j < s2.Len(); j += 3 {
-			for _, alias := range []string{"distinct", "z=x"} {
-				x, z := new(Fp4), new(Fp4)
-				*x = *e4(s4.E[i])
-				*z = *e4(s4.E[(i+5)%s4.Len()])
-				if alias == "z=x" {
-					z = x
-				}
-				y := *e2(s2.E[j])
-				z.mulSubfield(x, &y)
-				r.Eval(1)
-				nms++
-				want, _ := T.FromPoly(L4, T.Mul(T.ToPoly(L4, s4.Red[i]), T.ToPoly(L2, s2.Red[j])))
-				f4.Expect(r, "mulSubfield", alias, fmt.Sprintf("bls12381.Fp4.mulSubfield#b%d,a%d", i, j), z, want, true, s4.Red[i], s2.Red[j])
-			}
-		}
-	}
-	r.Count("bls12381.Fp4.mulSubfield", nms)
 
 	// ---------- Fp6 ----------
-	f6 := c12TowerField(bf.LayFp6, func() bf.Elem { return new(Fp6) })
+	f6 := c12TowerField(bf.LayFp6, func() bf.Elem { return new(ff.Fp6) })
 	o6 := c12SlotElems(3, core3, 3)
 	for k := 0; k < 6; k++ {
 		var cs []*big.Int
@@ -473,7 +445,7 @@ func TestVerifC12_blstower(t *testing.T) {
 		o6 = append(o6, bf.Operand{V: bf.Pack(bf.TowerWidth, cs...), Name: "pseudo"})
 	}
 	s6 := f6.Prepare("c", o6)
-	e6 := func(x bf.Elem) *Fp6 { return x.(*Fp6) }
+	e6 := func(x bf.Elem) *ff.Fp6 { return x.(*ff.Fp6) }
 	L6 := bf.LayFp6
 	for _, op := range []bf.BinOp{
 		{Name: "Add", Do: func(z, x, y bf.Elem) { e6(z).Add(e6(x), e6(y)) }, Ref: c12R2(L6, T.Add), Canon: true},
@@ -491,7 +463,7 @@ func TestVerifC12_blstower(t *testing.T) {
 		{Name: "SetOne", Do: func(z, x bf.Elem) { e6(z).SetOne() }, Ref: c12R1(L6, c12tot(func(a bf.Poly12) bf.Poly12 { return T.One() })), Canon: true},
 		{Name: "Marshal-Unmarshal", Do: func(z, x bf.Elem) {
 			b, err := e6(x).MarshalBinary()
-			if err != nil || len(b) != Fp6Size {
+			if err != nil || len(b) != ff.Fp6Size {
 				panic("MarshalBinary")
 			}
 			if err := e6(z).UnmarshalBinary(b); err != nil {
@@ -505,7 +477,7 @@ func TestVerifC12_blstower(t *testing.T) {
 	f6.CheckCmov(r, "CMov", func(x, y bf.Elem, b int) { e6(x).CMov(e6(x), e6(y), b) }, []int{0, 1}, s6, s6)
 
 	// ---------- Fp12 ----------
-	f12 := c12TowerField(bf.LayFp12, func() bf.Elem { return new(Fp12) })
+	f12 := c12TowerField(bf.LayFp12, func() bf.Elem { return new(ff.Fp12) })
 	o12 := c12SlotElems(6, core3, 3)
 	for _, v := range core3 {
 		var cs []*big.Int
@@ -531,7 +503,7 @@ func TestVerifC12_blstower(t *testing.T) {
 	r.Set("fp6_elements", s6.Len())
 	r.Set("fp12_elements", s12.Len())
 	r.Set("fp12_pair_elements", p12.Len())
-	e12 := func(x bf.Elem) *Fp12 { return x.(*Fp12) }
+	e12 := func(x bf.Elem) *ff.Fp12 { return x.(*ff.Fp12) }
 	L12 := bf.LayFp12
 	for _, op := range []bf.BinOp{
 		{Name: "Add", Do: func(z, x, y bf.Elem) { e12(z).Add(e12(x), e12(y)) }, Ref: c12R2(L12, T.Add), Canon: true},
@@ -555,7 +527,7 @@ func TestVerifC12_blstower(t *testing.T) {
 		{Name: "SetOne", Do: func(z, x bf.Elem) { e12(z).SetOne() }, Ref: c12R1(L12, c12tot(func(a bf.Poly12) bf.Poly12 { return T.One() })), Canon: true},
 		{Name: "Marshal-Unmarshal", Do: func(z, x bf.Elem) {
 			b, err := e12(x).MarshalBinary()
-			if err != nil || len(b) != Fp12Size {
+			if err != nil || len(b) != ff.Fp12Size {
 				panic("MarshalBinary")
 			}
 			if err := e12(z).UnmarshalBinary(b); err != nil {
@@ -563,7 +535,7 @@ func TestVerifC12_blstower(t *testing.T) {
 			}
 		}, Ref: c12R1(L12, c12tot(func(a bf.Poly12) bf.Poly12 { return a })), Canon: true},
 		{Name: "toCubic-andBack", Do: func(z, x bf.Elem) {
-			var c Fp12Cubic
+			var c ff.Fp12Cubic
 			c.FromFp12(e12(x))
 			e12(z).FromFp12Cubic(&c)
 		}, Ref: c12R1(L12, c12tot(func(a bf.Poly12) bf.Poly12 { return a })), Canon: true},
@@ -590,7 +562,7 @@ func TestVerifC12_blstower(t *testing.T) {
 	}
 
 	// ---------- Fp12Cubic ----------
-	fc := c12TowerField(bf.LayFp12Cubic, func() bf.Elem { return new(Fp12Cubic) })
+	fc := c12TowerField(bf.LayFp12Cubic, func() bf.Elem { return new(ff.Fp12Cubic) })
 	LC := bf.LayFp12Cubic
 	var oc []bf.Operand
 	for _, o := range p12.Ops {
@@ -601,7 +573,7 @@ func TestVerifC12_blstower(t *testing.T) {
 		oc = append(oc, bf.Operand{V: v, Name: o.Name})
 	}
 	sc := fc.Prepare("f", oc)
-	ec := func(x bf.Elem) *Fp12Cubic { return x.(*Fp12Cubic) }
+	ec := func(x bf.Elem) *ff.Fp12Cubic { return x.(*ff.Fp12Cubic) }
 	for _, op := range []bf.BinOp{
 		{Name: "Add", Do: func(z, x, y bf.Elem) { ec(z).Add(ec(x), ec(y)) }, Ref: c12R2(LC, T.Add), Canon: true},
 		{Name: "Mul", Do: func(z, x, y bf.Elem) { ec(z).Mul(ec(x), ec(y)) }, Ref: c12R2(LC, T.Mul), Canon: true},
@@ -617,13 +589,13 @@ func TestVerifC12_blstower(t *testing.T) {
 	// FromFp12 / FromFp12Cubic against the layout conversion of the model
 	ncv := 0
 	for i := 0; i < s12.Len(); i++ {
-		var c Fp12Cubic
+		var c ff.Fp12Cubic
 		c.FromFp12(e12(s12.E[i]))
 		want, _ := T.Convert(L12, LC, s12.Red[i])
 		r.Eval(2)
 		ncv += 2
 		fc.Expect(r, "FromFp12", "-", fmt.Sprintf("bls12381.Fp12Cubic.FromFp12#d%d", i), &c, want, true, s12.Red[i])
-		var back Fp12
+		var back ff.Fp12
 		back.FromFp12Cubic(&c)
 		f12.Expect(r, "FromFp12Cubic", "-", fmt.Sprintf("bls12381.Fp12.FromFp12Cubic#d%d", i), &back, s12.Red[i], true, s12.Red[i])
 	}
@@ -636,11 +608,11 @@ func TestVerifC12_blstower(t *testing.T) {
 	for i := 0; i < kc.Len(); i++ {
 		for j := 0; j < len(lines); j++ {
 			for _, alias := range []string{"distinct", "z=x"} {
-				var l LineValue
+				var l ff.LineValue
 				if !c12Load(&l, lines[j].V) {
 					t.Fatal("line load")
 				}
-				x, z := new(Fp12Cubic), new(Fp12Cubic)
+				x, z := new(ff.Fp12Cubic), new(ff.Fp12Cubic)
 				fc.Copy(x, kc.E[i])
 				fc.Copy(z, kc.E[(i+1)%kc.Len()])
 				if alias == "z=x" {
@@ -670,7 +642,7 @@ func TestVerifC12_blstower(t *testing.T) {
 	hard.Mul(hard, t2.Sub(t2, big.NewInt(1))).Add(hard, big.NewInt(3)) // = 3(p^4-p^2+1)/r (refcheck)
 	ncy, nhard := 0, 0
 	var gs []bf.Poly12
-	var gE []*Cyclo6
+	var gE []*ff.Cyclo6
 	for i := 0; i < k12.Len(); i++ {
 		fpoly := T.ToPoly(L12, k12.Red[i])
 		fi, ok := T.Inv(fpoly)
@@ -682,15 +654,15 @@ func TestVerifC12_blstower(t *testing.T) {
 		_ = fi
 		t0i, _ := T.Inv(t0)
 		gref := T.Mul(frob6(t0), t0i)
-		var g Cyclo6
-		ff := *e12(k12.E[i])
-		EasyExponentiation(&g, &ff)
+		var g ff.Cyclo6
+		fin := *e12(k12.E[i])
+		ff.EasyExponentiation(&g, &fin)
 		r.Eval(1)
 		ncy++
 		cid := fmt.Sprintf("bls12381.Cyclo6#x%d", i)
 		r.Distinct(cid)
 		want, _ := T.FromPoly(L12, gref)
-		if !f12.Expect(r, "EasyExponentiation", "-", cid, (*Fp12)(&g), want, true, k12.Red[i]) {
+		if !f12.Expect(r, "EasyExponentiation", "-", cid, (*ff.Fp12)(&g), want, true, k12.Red[i]) {
 			continue
 		}
 		gs = append(gs, gref)
@@ -700,14 +672,14 @@ func TestVerifC12_blstower(t *testing.T) {
 	for i, g := range gE {
 		gref := gs[i]
 		cid := fmt.Sprintf("bls12381.Cyclo6#g%d", i)
-		exp := func(op, alias string, got *Cyclo6, want bf.Poly12) {
+		exp := func(op, alias string, got *ff.Cyclo6, want bf.Poly12) {
 			r.Eval(1)
 			ncy++
 			w, _ := T.FromPoly(L12, want)
 			in, _ := T.FromPoly(L12, gref)
-			f12.Expect(r, "Cyclo6."+op, alias, cid, (*Fp12)(got), w, true, in)
+			f12.Expect(r, "Cyclo6."+op, alias, cid, (*ff.Fp12)(got), w, true, in)
 		}
-		var z Cyclo6
+		var z ff.Cyclo6
 		z.Sqr(g)
 		exp("Sqr", "distinct", &z, T.Sqr(gref))
 		z = *g
@@ -732,13 +704,13 @@ func TestVerifC12_blstower(t *testing.T) {
 			r.Violation("C12|bls12381.Cyclo6.IsIdentity|wrong-flag|-|reduced", cid, "IsIdentity wrong", nil)
 		}
 		if i < r.Pick(6, 24) {
-			var u URoot
-			HardExponentiation(&u, g)
+			var u ff.URoot
+			ff.HardExponentiation(&u, g)
 			nhard++
-			exp("HardExponentiation", "-", (*Cyclo6)(&u), T.Exp(gref, hard))
-			var u2 URoot
+			exp("HardExponentiation", "-", (*ff.Cyclo6)(&u), T.Exp(gref, hard))
+			var u2 ff.URoot
 			u2.Exp(&u, bf.RBLS.Bytes())
-			exp("URoot.Exp(r)", "-", (*Cyclo6)(&u2), T.One())
+			exp("URoot.Exp(r)", "-", (*ff.Cyclo6)(&u2), T.One())
 		}
 	}
 	r.Count("bls12381.Cyclo6.ops", ncy)
@@ -787,21 +759,21 @@ func TestVerifC12_blstower(t *testing.T) {
 		sweep(f4, bf.LayFp4, func(x bf.Elem) bool { return e4(x).IsZero() == 1 }, func(a, b bf.Elem) bool { return e4(a).IsEqual(e4(b)) == 1 }, nil)
 		sweep(f6, bf.LayFp6, func(x bf.Elem) bool { return e6(x).IsZero() == 1 }, func(a, b bf.Elem) bool { return e6(a).IsEqual(e6(b)) == 1 }, nil)
 		sweep(f12, bf.LayFp12, func(x bf.Elem) bool { return e12(x).IsZero() == 1 }, func(a, b bf.Elem) bool { return e12(a).IsEqual(e12(b)) == 1 }, extra{
-			"Cyclo6.IsIdentity":    {Do: func(x bf.Elem) bool { return (*Cyclo6)(e12(x)).IsIdentity() == 1 }, Ref: isOneC},
-			"URoot.IsIdentity":     {Do: func(x bf.Elem) bool { return (*URoot)(e12(x)).IsIdentity() == 1 }, Ref: isOneC},
-			"Cyclo6.IsEqual(copy)": {Do: func(x bf.Elem) bool { c := *e12(x); return (*Cyclo6)(e12(x)).IsEqual((*Cyclo6)(&c)) == 1 }, Ref: func([]*big.Int) bool { return true }},
+			"Cyclo6.IsIdentity":    {Do: func(x bf.Elem) bool { return (*ff.Cyclo6)(e12(x)).IsIdentity() == 1 }, Ref: isOneC},
+			"URoot.IsIdentity":     {Do: func(x bf.Elem) bool { return (*ff.URoot)(e12(x)).IsIdentity() == 1 }, Ref: isOneC},
+			"Cyclo6.IsEqual(copy)": {Do: func(x bf.Elem) bool { c := *e12(x); return (*ff.Cyclo6)(e12(x)).IsEqual((*ff.Cyclo6)(&c)) == 1 }, Ref: func([]*big.Int) bool { return true }},
 		})
 		// Cyclo6 / URoot equality on the same neighbours (separate pass so that the keys name the type)
-		fcy := c12TowerField(bf.LayFp12, func() bf.Elem { return new(Fp12) })
+		fcy := c12TowerField(bf.LayFp12, func() bf.Elem { return new(ff.Fp12) })
 		fcy.Name = "bls12381.Cyclo6"
 		fcy.CheckBitFlips(r, bf.BitFlip{Coords: 12, Width: bf.TowerWidth, Bits: 384, P: P, R: R, Limit: P,
 			IsEqual: func(a, b bf.Elem) bool {
 				// "either type says equal": must be false for distinct residues
-				return (*Cyclo6)(e12(a)).IsEqual((*Cyclo6)(e12(b))) == 1 || (*URoot)(e12(a)).IsEqual((*URoot)(e12(b))) == 1
+				return (*ff.Cyclo6)(e12(a)).IsEqual((*ff.Cyclo6)(e12(b))) == 1 || (*ff.URoot)(e12(a)).IsEqual((*ff.URoot)(e12(b))) == 1
 			}}, towerBases(bf.LayFp12)[:2])
 		sweep(fc, bf.LayFp12Cubic, nil, func(a, b bf.Elem) bool { return ec(a).IsEqual(ec(b)) == 1 }, nil)
-		fl := c12TowerField(bf.LayLine, func() bf.Elem { return new(LineValue) })
-		sweep(fl, bf.LayLine, func(x bf.Elem) bool { return x.(*LineValue).IsZero() == 1 }, nil, nil)
+		fl := c12TowerField(bf.LayLine, func() bf.Elem { return new(ff.LineValue) })
+		sweep(fl, bf.LayLine, func(x bf.Elem) bool { return x.(*ff.LineValue).IsZero() == 1 }, nil, nil)
 	}
 	for i := 0; i < 3; i++ {
 		k := i*s12.Len()/3 + 7
